@@ -22,4 +22,5 @@ PROPERTY Ordered
 PROPERTY RecoveryAnnounced
 PROPERTY Isolation
 PROPERTY Frame
+PROPERTY ScopeIndependence
 CHECK_DEADLOCK FALSE
